@@ -129,10 +129,18 @@ def cross_cases(rng, quick):
 thin = G.thin
 
 
+def thin_contents(ctx, contents):
+    """children of the ambient sweep take a third of the short contents but keep every content that is long enough
+    to reach the late decision points (ISO at 34 KiB, VHDX at 256 KiB)"""
+    long_ = [c for c in contents if len(c[1]) >= 34 * images.K]
+    return thin(ctx, [c for c in contents if len(c[1]) < 34 * images.K]) + \
+        (long_ if getattr(ctx, 'ambient', None) is None else thin(ctx, long_, 2))
+
+
 def gen_cases(ctx):
     rng = ctx.rng
     out = []
-    contents = thin(ctx, G.c03_contents(rng, ctx.quick))
+    contents = thin_contents(ctx, G.c03_contents(rng, ctx.quick))
     for label, data in contents:
         n = len(data)
         alloweds = [rng.choice(G.ALLOWED_FAMILY)]
@@ -144,8 +152,8 @@ def gen_cases(ctx):
         for al in alloweds:
             for sizes in rng.sample(rs, min(len(rs), 2 if ctx.quick else 4)):
                 out.append((label, data, al, sizes))
-    out += G.c03_text_descriptors(rng, ctx.quick)
-    for label, data in G.c03_huge_contents(rng, ctx.quick):
+    out += thin(ctx, G.c03_text_descriptors(rng, ctx.quick))
+    for label, data in thin(ctx, G.c03_huge_contents(rng, ctx.quick), 2):
         n = len(data)
         for al, sizes in [(None, [65536] * (n // 65536 + 2)), (['vhdx', 'raw'], [1 << 20] * (n // (1 << 20) + 2)),
                           (None, [4096] * (n // 4096 + 2))][:2 if ctx.quick else 3]:
@@ -155,7 +163,7 @@ def gen_cases(ctx):
         e, nk = pick_opts(rng, c[2])
         out2.append(tuple(c) + ({'expected': e, 'names': nk},))
     res = []
-    for label, data, al, sizes, o in out2 + cross_cases(rng, ctx.quick):
+    for label, data, al, sizes, o in out2 + thin(ctx, cross_cases(rng, ctx.quick)):
         # how the public interface is used: constructor call form, read(size=) keyword, real file, unusual read
         # sizes (None / -1 / -2 / 0), or an iterator source consumed by one of the iteration protocols
         uu = G.pick_usage(rng, o['expected'], al, iterator=False, p_plain=0.5)
@@ -225,10 +233,10 @@ def correspondence(ctx):
     # sequences: a valid image of some format is inspected first, then short / other streams in the same
     # process; the model has no state between requests, so the later stream must look exactly as it does alone
     priors = G.c03_priors(rng, ctx.quick)
-    laters = G.c03_laters(rng, ctx.quick)
+    laters = thin(ctx, G.c03_laters(rng, ctx.quick))
     seq = []
     for plabel, pdata in priors:
-        for llabel, ldata in (rng.sample(laters, 6) if ctx.quick else laters):
+        for llabel, ldata in (rng.sample(laters, min(6, len(laters))) if ctx.quick else laters):
             al = rng.choice([None, None, rng.choice(G.ALLOWED_FAMILY)])
             seq.append((plabel, pdata, llabel, ldata, al, rng.choice([[4096, 0], [len(ldata), 0], [64, 512, 4096, 0]])))
     replies = G.ask_par(ctx.driver, [G.wrap_req(al, None, ldata, sizes) for _, _, _, ldata, al, sizes in seq])
@@ -520,7 +528,7 @@ def search(ctx, seeds, full=False):
         streams, and their whole trace must not depend on what was inspected before"""
         priors = G.c03_priors(rng, ctx.quick)
         laters = G.c03_laters(rng, ctx.quick)
-        for llabel, ldata in laters:
+        for llabel, ldata in thin(ctx, laters):
             if len(fresh) >= 8:
                 return
             al = rng.choice([None, None, rng.choice(G.ALLOWED_FAMILY)])
@@ -556,16 +564,16 @@ def search(ctx, seeds, full=False):
                     s.get('names', 'str'), s.get('usage'))
         rounds = (2 if full else 1) if ctx.quick else (4 if full else 2)
         for _ in range(rounds):
-            for label, data, al, sizes in G.c03_text_descriptors(rng, ctx.quick):
+            for label, data, al, sizes in thin(ctx, G.c03_text_descriptors(rng, ctx.quick)):
                 if len(fresh) >= 8:
                     break
                 run(label, data, al, sizes)
             sequences(2)
-            for label, data, al, sizes, o in cross_cases(rng, ctx.quick and not full):
+            for label, data, al, sizes, o in thin(ctx, cross_cases(rng, ctx.quick and not full)):
                 if len(fresh) >= 8:
                     break
                 run(label, data, al, sizes, (), o['expected'], o['names'])
-            contents = thin(ctx, G.c03_contents(rng, ctx.quick))
+            contents = thin_contents(ctx, G.c03_contents(rng, ctx.quick))
             if full or not ctx.quick:
                 contents += G.c03_huge_contents(rng, True)
             for label, data in contents:
@@ -574,7 +582,8 @@ def search(ctx, seeds, full=False):
                 n = len(data)
                 big = n > 64 * images.K
                 rs = G.read_sizes(n, rng, ctx.quick)
-                for al in ([None] if big else [None, rng.choice(G.ALLOWED_FAMILY), rng.choice(G.ALLOWED_FAMILY)]):
+                for al in ([None] if big else [None, rng.choice(G.ALLOWED_FAMILY)] +
+                           ([] if ctx.quick and not full else [rng.choice(G.ALLOWED_FAMILY)])):
                     finals = []
                     for sizes in (rs[:2] if big else rng.sample(rs, min(len(rs), 3))):
                         t = run(label, data, al, sizes)
